@@ -182,6 +182,9 @@ def single_main(prop, argv: list[str]) -> int:
     cpu = int(float(cpu))
     if cpu > 0:
         resource.setrlimit(resource.RLIMIT_CPU, (cpu, cpu + 5))
+        # shortly before the limit, dump where the interpreter is: the innermost repository
+        # frame becomes the mechanism key of a confirmed hang
+        faulthandler.dump_traceback_later(max(1.0, cpu * 0.85), exit=False)
     with open(case_path) as f:
         case = json.load(f)
     ctx = Ctx(prop.ID, tier, int(seed), replay_mode=True)
@@ -269,7 +272,19 @@ def confirm_hang(prop_id, tier, seed, case, workdir, budget) -> tuple[str, dict 
             p.wait()
             return "inconclusive", None
     if p.returncode in (-signal.SIGXCPU, -signal.SIGKILL):
-        return "hang", None
+        where = "unknown"
+        try:
+            with open(os.path.join(workdir, f"single_{tag}.log"), "r", errors="replace") as f:
+                for line in f:
+                    line = line.strip()
+                    if line.startswith("File ") and "/multidecoder/" in line and "/vf/" not in line:
+                        path = line.split('"')[1].split("/multidecoder/", 1)[1]
+                        func = line.rsplit(" in ", 1)[1] if " in " in line else "?"
+                        where = f"{path}:{func}"
+                        break
+        except (OSError, IndexError):
+            pass
+        return "hang", {"where": where}
     if p.returncode != 0:
         return "crash", {"returncode": p.returncode}
     try:
@@ -353,12 +368,13 @@ def supervise(prop, tier: str, seed: int, shards: list[dict], workdir: str, wall
                     p.log.close()
                     running.remove(p)
                     merged["hang_suspects"] += 1
-                    verdict, _ = confirm_hang(prop.ID, tier, seed, st[1], workdir, budget)
+                    verdict, info = confirm_hang(prop.ID, tier, seed, st[1], workdir, budget)
                     merged["suspect_cases"].append({"verdict": verdict, "case": _shorten(st[1])})
                     if verdict == "hang":
                         merged["hangs_confirmed"] += 1
+                        hkey = "hang:" + (info or {}).get("where", "unknown")
                         v = merged["violations"].setdefault(
-                            "hang", {"key": "hang", "count": 0, "examples": []})
+                            hkey, {"key": hkey, "count": 0, "examples": []})
                         v["count"] += 1
                         if len(v["examples"]) < MAX_VIOL_PER_KEY:
                             v["examples"].append({
